@@ -266,6 +266,15 @@ def run_table_check(prop, tier, seed, work, *, mc, trace, driver_args, key_fn, l
     log("%s: model checked %s: %d distinct states" % (prop, mc_cfg, r.distinct))
     trace_path = os.path.join(work, "trace.ndjson")
     rc, out, err = driver(binary, driver_args + ["-seed", seed, "-out", trace_path], work)
+    if rc != 0 and app_crashed(err):
+        d = save_replay(prop, seed, None, extra_files=[trace_path])
+        with open(os.path.join(d, "crash.txt"), "w") as f:
+            f.write(err[-30000:])
+        print("VIOLATION property=%s replay=%s" % (prop, d))
+        print("  the application took the process down (unrecovered panic in repository code); last lines:\n" + err[-1200:])
+        write_evidence(prop, tier, seed, level, dict(states=r.distinct, transitions=r.generated, rule=rule, node_crashes=1), assumptions,
+                       time.time() - t0, violations=1)
+        return EXIT_VIOLATION
     if rc != 0:
         raise Infra("driver failed rc=%d\n%s\n%s" % (rc, out[-3000:], err[-3000:]))
     return finish_trace_check(prop, tier, seed, work, trace_path, trace, key_fn, level, assumptions, rule,
@@ -353,12 +362,42 @@ def run_drivers(binary, jobs, work, race=False):
         rc, out, err = driver(binary, list(args) + ["-out", path], work)
         return name, path, rc, out, err
 
+    crashes = []
     with ThreadPoolExecutor(max_workers=NCPU) as ex:
         for name, path, rc, out, err in ex.map(one, jobs):
             if rc != 0:
+                if app_crashed(err):
+                    crashes.append((name, path, err))
+                    continue
                 raise Infra("driver %s failed rc=%d\n%s\n%s" % (name, rc, out[-2000:], err[-3000:]))
             outs[name] = path
+    if crashes:
+        raise AppCrash(crashes)
     return outs
+
+
+class AppCrash(Exception):
+    """The application under test took the whole process down (a panic that nothing recovers, e.g. inside a goroutine it
+    started): on a real node this is a crash of the node."""
+    def __init__(self, crashes):
+        Exception.__init__(self, "application crashed in %d driver(s)" % len(crashes))
+        self.crashes = crashes
+
+
+def app_crashed(stderr):
+    """True iff the process died of a Go panic / fatal error whose panicking goroutine was running code of the repository
+    (first non-runtime frame under github.com/goatnetwork/goat/), as opposed to the harness's own code."""
+    m = re.search(r"^(panic:|fatal error:).*$", stderr, re.M)
+    if not m:
+        return False
+    tail = stderr[m.start():]
+    g = re.search(r"^goroutine \d+ \[running\]:\n((?:.*\n)+?)(?:\n|\Z)", tail, re.M)
+    frames = re.findall(r"^([\w./\-]+(?:\([^)]*\))?\.[\w.()*\[\]{}]+)\(", (g.group(1) if g else tail), re.M)
+    for fr in frames:
+        if fr.startswith(("runtime.", "panic(", "runtime/")):
+            continue
+        return fr.startswith("github.com/goatnetwork/goat/")
+    return False
 
 
 def concat(paths, dest):
@@ -390,6 +429,16 @@ def run_stateful_check(prop, tier, seed, work, *, mc_list, groups, key_fn, level
     for gi, (tspec, tcfg, jobs) in enumerate(groups):
         try:
             paths = run_drivers(binary, jobs, work)
+        except AppCrash as ac:
+            for name, path, err in ac.crashes:
+                d = save_replay(prop, seed, None, extra_files=[p for p in (path,) if os.path.exists(p)], note="driver %s" % name)
+                with open(os.path.join(d, "crash.txt"), "w") as f:
+                    f.write(err[-30000:])
+                print("VIOLATION property=%s replay=%s" % (prop, d))
+                print("  the application took the process down (unrecovered panic in repository code); last lines:\n" + err[-1200:])
+                nviol += 1
+            rc_all = EXIT_VIOLATION
+            continue
         except Infra as e:
             if rc_all == EXIT_VIOLATION:      # a violation has already been reported: it stands; the trouble is noted
                 infra_notes.append(str(e)[:500])
